@@ -35,6 +35,7 @@ def gen_trial(rng, profile):
     """profile: 'wf' (per-source strictly increasing ids, consistent blocks) | 'adv' (arbitrary ids, restarts, loss)
     | 'bal' (balanced receiver)."""
     bal = profile == 'bal'
+    slash = profile != 'bal' and rng.random() < 0.06
     n = rng.choice([1, 2, 2, 2, 3, 3]) if not bal else rng.choice([2, 2, 3, 4])
     srcs, tops = [], []
     for i in range(n):
@@ -43,6 +44,7 @@ def gen_trial(rng, profile):
         own = [('_' + t.lstrip('_')) if t.startswith('_') else t for t in own]
         if bal: own = ['main'] if rng.random() < 0.7 else own
         if profile == 'adv' and rng.random() < 0.06: own = []          # publishes empty dicts
+        if slash and own and not own[0].startswith('_'): own = ([own[0] + '/x'] + own) if rng.random() < 0.7 else (own + [own[0] + '/x'])     # a topic whose frame has another topic's frame as prefix
         kind = rng.choice(['all', 'all', 'explicit', 'explicit', 'star'])
         if kind == 'all': spec = None
         elif kind == 'star': spec = [['*', '*']]
